@@ -64,6 +64,11 @@ func (C18) Execute(sc *core.Scenario, keepLog bool) *core.Result {
 		owner := map[int]int{} // marker -> user
 		failures := 0          // consecutive failed logins (server wide)
 		login := func(s *world.Sess, ui int) bool {
+			if failures >= 3 {
+				// the server is in its login jail: wait it out (this login is a harness read)
+				e.W.Advance(jail + time.Second)
+				failures = 0
+			}
 			r := s.Cmd("LOGIN %s %s", users[ui].names[0], users[ui].pass)
 			if r.OK() {
 				failures = 0
